@@ -209,7 +209,7 @@ def run_case(case, ctx):
                 out.append(viol('C02 complete: status %s under %s but the full report folds to %s' % (r['status'], ' '.join(opts), want),
                                 'mix=%s lists=%r\nstdout tail:\n%s' % (case['mix'], {c: prof[c] for c in CATS}, r['stdout'][-700:])))
             if any(o in ('-j', '-jj') for o in opts):
-                # the JSON document is a report too: its own failure / warning notes (names the database knows) fold to the same status
+                # the JSON document is a report too: its own failure / warning notes (those of names the database does not know included) fold to the same status
                 doc, _err = report.parse_json(r['stdout'])
                 if isinstance(doc, dict):
                     lv, unknown = set(), False
@@ -220,10 +220,9 @@ def run_case(case, ctx):
                                 key = key[:key.rindex('-')] + '-*'
                             if key not in gen.db()['ssh2'][c]:
                                 unknown = True
-                                continue
                             lv.update(k for k in ('fail', 'warn') if e['notes'].get(k))
                     jf = 3 if 'fail' in lv else (2 if ('warn' in lv or unknown) else 0)
-                    if r['status'] != jf and not (unknown and 'fail' not in lv and r['status'] == 2):
+                    if r['status'] != jf:
                         out.append(viol('C02 complete: status %s under %s but the JSON report itself folds to %s' % (r['status'], ' '.join(opts), jf),
                                         'role=%s lists=%r' % (case.get('role', 'server'), {c: prof.get(c) for c in list(CATS) + ['enc_s2c', 'mac_s2c']})))
         if len(tr.levels() & {'fail', 'warn', 'info'}) >= 2:
